@@ -521,4 +521,9 @@ pub open spec fn wp_from_ip(b: Seq<u8>) -> (WNet, WTransport, Option<WFault>) {
         Ok(ip) => { let (t, f) = wp_transport(b, ip.payload_start, ip.payload_end, ip.ip_number, ip.fragmented, ip.len_source); (WNet::Ip { at: 0, ip }, t, f) }
     }
 }
+/// C05 on the specification level: wherever the strict IPv4 boundary accepts, the lax boundary is the same record (no stop, not incomplete)
+pub proof fn lemma_w4_lax_extends_strict(b: Seq<u8>)
+    ensures w4_strict(b) matches Ok(ws) ==> w4_lax(b) == Ok::<WIp, WFault>(ws) && ws.stop is None && !ws.incomplete,
+{}
+
 } // verus!
